@@ -503,8 +503,21 @@ impl Simulation {
                 Ok(Some(t)) if t == target_time => return Ok(()),
                 // No actions are scheduled before or at the target time.
                 Ok(None) => {
-                    // Update the simulation time.
-                    self.time.write(target_time);
+                    // Update the simulation time while holding the scheduler
+                    // queue lock: scheduling requests read the time under that
+                    // lock, so none can slip in a deadline that the new time
+                    // would already have passed. If an action was scheduled at
+                    // or before the target time since the queue was last
+                    // inspected, process it first.
+                    {
+                        let scheduler_queue = self.scheduler_queue.lock().unwrap();
+                        if let Some((key, _)) = scheduler_queue.peek() {
+                            if key.0 <= target_time {
+                                continue;
+                            }
+                        }
+                        self.time.write(target_time);
+                    }
                     self.clock.synchronize(target_time);
                     return Ok(());
                 }
